@@ -28,7 +28,7 @@ def main():
     sys.setrecursionlimit(2000)
     from mc import core
     import fggs
-    if not os.path.abspath(fggs.__file__).startswith('/repo/'):
+    if not os.path.abspath(fggs.__file__).startswith(os.path.abspath(core.REPO) + '/'):
         print('fggs is not imported from /repo:', fggs.__file__)
         sys.exit(2)
     check = load_check(args.pid)
